@@ -259,7 +259,8 @@ def leading_zero_stream(ck, keys, limit=4000):
 def corpus_stream(ck, tmp, keys):
     """Regression witnesses: F1 (cbor2 >= 6 decodes the tagged map immutably: every sign call failed) on the test-suite's root envelope."""
     fails, reqs, keep = [], [], []
-    for i, (alg, kn) in enumerate([(a, keys.for_alg(a)) for a in ALGS] + [(a, keys.for_alg(a, 5)) for a in ALGS]):     # PEM files, then DER files
+    for i, (alg, kn) in enumerate([(a, keys.for_alg(a)) for a in ALGS] + [(a, keys.for_alg(a, 5)) for a in ALGS]      # PEM files, then DER files,
+                                  + [("eddsa", "solo.v1"), ("hash-eddsa", "solo.v1"), ("es-256", "solo.es.v1")]):       # then dotted names that stand alone
         kid = 0x4000AA00
         r = sl.lib_single(tmp, CORPUS_ENVELOPE, kn, kid, alg, keys.dir, "error")
         ck.count("corpus", ("F1", alg, kn), nontrivial=True, sample={"witness": "F1: tests/test_cmd_sign.py UNSIGNED_ROOT_INPUT_ENVELOPE", "alg": alg, "key_id": kid, "key_file": "DER" if kn.startswith("kd_") else "PEM"})
